@@ -6,6 +6,7 @@ equal SQLite's and DuckDB's on the same data, or be an ExecuteError. A case is a
 executor disagrees with an engine while the two engines agree with each other (or only one accepts)."""
 from __future__ import annotations
 
+from vlib.paths import SQLGLOT
 import logging
 
 import sqlglot
@@ -47,7 +48,7 @@ def frame(exc):
     import traceback
 
     for fr in reversed(traceback.extract_tb(exc.__traceback__)):
-        if fr.filename.startswith("/repo/sqlglot"):
+        if fr.filename.startswith(SQLGLOT):
             return f"{fr.filename.rsplit('/', 1)[-1]}:{fr.name}"
     return "?"
 
